@@ -499,4 +499,261 @@ theorem step_done (b0 : Base) (s : Shared) (p : PState) (r : List Out)
           simp [den, evalProg, hst]
       | cons op rest => simp [SharedObjs.step] at hst
 
+/-! ## the theorems about yaql's stateful objects -/
+
+/-- the only shared writes of the current code are publications of `(k, entry k)` -/
+theorem objs_benign (b0 : Base) : BenignWrites (machine current) (entry b0) b0 (PInv b0) := by
+  intro c p s' p' hc hp hst
+  have g := step_good b0 (b0, c) p s' p' ⟨rfl, hc⟩ hp hst
+  exact ⟨g.base, g.pinv, g.cache⟩
+
+/-- sequentially, a thread's result does not depend on which sound tables it starts from: it is
+    `den b0 p`, a function of the private state and the immutable base -/
+theorem objs_oblivious (b0 : Base) :
+    Oblivious (machine current) (fun s => s.1 = b0 ∧ Memo.Sound (entry b0) s.2) (PInv b0) := by
+  apply oblivious_of_denotation (machine current) _ (PInv b0) (den b0) (μ b0)
+  · intro s p s' p' hs hp hst
+    have g := step_good b0 s p s' p' hs hp hst
+    refine ⟨⟨g.base, ?_⟩, g.pinv, g.den, g.mu⟩
+    rcases g.cache with h | ⟨k, h⟩
+    · rw [h]; exact hs.2
+    · rw [h]
+      intro kv hkv
+      rcases List.mem_cons.mp hkv with e | e
+      · rw [e]
+      · exact hs.2 kv e
+  · intro s p r _ _ hst
+    exact step_done b0 s p r hst
+
+/-- **C18 for the stateful objects of yaql (current code).**  Any number of threads, each running
+    any program of dispatches, `FrozenDict` hashes, `yaql.eval` calls and operations on lazy objects
+    it created itself, over one shared base and any sound initial cache contents, under EVERY
+    schedule: the base (frozen documents, definitions, objects stored in the shared context) is
+    unchanged, the caches have only grown by entries that are the value of their key, and every
+    finished thread returned exactly what it returns alone. -/
+theorem objs_isolated (b0 : Base) (c0 : Cache) (hc0 : Memo.Sound (entry b0) c0)
+    (threads : List (Thread PState (List Out))) (hinv : ∀ t ∈ threads, TInv (PInv b0) t)
+    (sched : List Nat) :
+    (run (machine current) ⟨(b0, c0), threads⟩ sched).shared.1 = b0 ∧
+    Memo.GrownFrom (entry b0) c0 (run (machine current) ⟨(b0, c0), threads⟩ sched).shared.2 ∧
+    ∀ (i : Nat) (r : List Out),
+      (run (machine current) ⟨(b0, c0), threads⟩ sched).threads[i]? = some (Thread.done r) →
+      ∃ t, threads[i]? = some t ∧ SoloResult (machine current) (b0, c0) t r ∧
+        ∀ r', SoloResult (machine current) (b0, c0) t r' → r' = r :=
+  isolation_benign_cache (machine current) (entry b0) b0 c0 (PInv b0) hc0 (objs_benign b0)
+    (objs_oblivious b0) threads hinv sched
+
+/-- the solo result is the big-step reference `den`: what the driver predicts without a schedule -/
+theorem solo_is_den (b0 : Base) (c0 : Cache) (hc0 : Memo.Sound (entry b0) c0) (p : PState)
+    (hp : PInv b0 p) : SoloResult (machine current) (b0, c0) (.running p) (den b0 p) := by
+  -- termination with the denotation, as in `oblivious_of_denotation`
+  have term : ∀ (k : Nat) (s : Shared) (p : PState), μ b0 p < k → SInv b0 s → PInv b0 p →
+      ∃ n, (soloIter (machine current) n (s, .running p)).2 = .done (den b0 p) := by
+    intro k
+    induction k with
+    | zero => intro s p h; omega
+    | succ k ih =>
+        intro s p hk hs hpi
+        cases hst : SharedObjs.step current s p with
+        | inl sp =>
+            obtain ⟨s', p'⟩ := sp
+            have g := step_good b0 s p s' p' hs hpi hst
+            have hs' : SInv b0 s' := by
+              refine ⟨g.base, ?_⟩
+              rcases g.cache with h | ⟨k, h⟩
+              · rw [h]; exact hs.2
+              · rw [h]
+                intro kv hkv
+                rcases List.mem_cons.mp hkv with e | e
+                · rw [e]
+                · exact hs.2 kv e
+            obtain ⟨n, hn⟩ := ih s' p' (by have := g.mu; omega) hs' g.pinv
+            refine ⟨n + 1, ?_⟩
+            rw [soloIter_succ]
+            have : stepThread (machine current) s (.running p) = (s', .running p') :=
+              stepThread_inl (machine current) s s' p p' hst
+            simp only [this, hn, g.den]
+        | inr q =>
+            refine ⟨1, ?_⟩
+            rw [soloIter_succ]
+            have : stepThread (machine current) s (.running p) = (s, .done q) :=
+              stepThread_inr (machine current) s p q hst
+            simp only [this, soloIter]
+            rw [step_done b0 s p q hst]
+  exact term (μ b0 p + 1) (b0, c0) p (by omega) ⟨rfl, hc0⟩ hp
+
+/-- **the results are schedule-independent and explicit**: every finished thread returned `den` of
+    its initial private state -/
+theorem objs_results (b0 : Base) (c0 : Cache) (hc0 : Memo.Sound (entry b0) c0)
+    (ps : List PState) (hinv : ∀ p ∈ ps, PInv b0 p) (sched : List Nat) (i : Nat) (r : List Out)
+    (h : (run (machine current) ⟨(b0, c0), ps.map .running⟩ sched).threads[i]? = some (Thread.done r)) :
+    ∃ p, ps[i]? = some p ∧ r = den b0 p := by
+  have hinv' : ∀ t ∈ ps.map (Thread.running (R := List Out)), TInv (PInv b0) t := by
+    intro t ht
+    obtain ⟨p, hp, rfl⟩ := List.mem_map.mp ht
+    exact hinv p hp
+  obtain ⟨_, _, h3⟩ := objs_isolated b0 c0 hc0 _ hinv' sched
+  obtain ⟨t, ht, _, huniq⟩ := h3 i r h
+  simp only [List.getElem?_map] at ht
+  cases hp : ps[i]? with
+  | none => simp [hp] at ht
+  | some p =>
+      simp only [hp, Option.map_some, Option.some.injEq] at ht
+      subst ht
+      exact ⟨p, rfl, (huniq _ (solo_is_den b0 c0 hc0 p (hinv p (List.mem_of_getElem? hp)))).symm⟩
+
+/-! ### the lazy objects are private to the evaluation that created them -/
+
+/-- programs that only operate on lazy objects (OrderingIterable, GroupAggregator, memorized
+    iterators) they created themselves -/
+def LazyOwn (p : PState) : Prop :=
+  (∀ op ∈ p.prog, op.isLazy = true ∧ op.ownOnly = true) ∧
+  (p.pend = none ∨ ∃ i k, p.pend = some (.pulling (.own i) k))
+
+theorem lazy_readOnly : ReadOnly (machine current) LazyOwn := by
+  intro s p s' p' hp hst
+  obtain ⟨ctxId, heap, prog, pend, outs⟩ := p
+  obtain ⟨hprog, hpend⟩ := hp
+  simp only at hprog hpend
+  simp only [machine] at hst
+  rcases hpend with hnone | ⟨i, k, hpull⟩
+  · subst hnone
+    cases prog with
+    | nil => simp [SharedObjs.step] at hst
+    | cons op rest =>
+        simp only [SharedObjs.step, Sum.inl.injEq] at hst
+        obtain ⟨hl, hown⟩ := hprog op (by simp)
+        rw [stepOp_lazy _ _ op hl] at hst
+        obtain ⟨hsh, hpend⟩ := lazyOp_own ctxId s.1.heap heap op hown
+        have e1 := applyL_fst s ⟨ctxId, heap, rest, none, outs⟩ _ hsh
+        rw [hst] at e1
+        simp only at e1
+        refine ⟨e1, ?_⟩
+        have e2 : p' = (applyL s ⟨ctxId, heap, rest, none, outs⟩
+            (lazyOp ctxId s.1.heap heap op)).2 := by rw [hst]
+        rw [e2]
+        refine ⟨fun o ho => hprog o (by simp [applyL] at ho; simp [ho]), ?_⟩
+        rcases hpend with h | ⟨r, k, _, hr, h⟩
+        · exact Or.inl (by simp [applyL, h])
+        · cases r with
+          | shared j => simp [Ref.isOwn] at hr
+          | own j => exact Or.inr ⟨j, k, by simp [applyL, h]⟩
+  · subst hpull
+    simp only [SharedObjs.step, Sum.inl.injEq, stepPend] at hst
+    obtain ⟨hsh, hnone⟩ := pullSeg_own s.1.heap heap i k
+    have e1 := applyL_fst s ⟨ctxId, heap, prog, none, outs⟩ _ hsh
+    rw [hst] at e1
+    simp only at e1
+    refine ⟨e1, ?_⟩
+    have e2 : p' = (applyL s ⟨ctxId, heap, prog, none, outs⟩
+        (pullSeg s.1.heap heap (.own i) k)).2 := by rw [hst]
+    rw [e2]
+    exact ⟨fun o ho => hprog o (by simpa [applyL] using ho), Or.inl (by simp [applyL, hnone])⟩
+
+/-- **C18.lazy_objects_private.**  An OrderingIterable, GroupAggregator or memorized iterator is
+    private to the evaluation that created it: as long as the programs reach such objects only
+    through references of their own (`Ref.own` - none was stored in the shared context), then for
+    every number of threads and EVERY schedule the shared component - including every object that
+    IS stored in the shared context - is untouched, and every thread is exactly where it is after
+    the same number of its own steps alone. -/
+theorem lazy_objects_private (sys : Sys Shared PState (List Out))
+    (hinv : ∀ t ∈ sys.threads, TInv LazyOwn t) (sched : List Nat) :
+    (run (machine current) sys sched).shared = sys.shared ∧
+    ∀ i, (run (machine current) sys sched).threads[i]? =
+      (sys.threads[i]?).map fun t => (soloIter (machine current) (sched.count i) (sys.shared, t)).2 := by
+  obtain ⟨h1, _, h3⟩ := isolation_exact (machine current) LazyOwn lazy_readOnly sched sys hinv
+  exact ⟨h1, h3⟩
+
+/-! ## negative witnesses: where the state is NOT private, some schedule interferes -/
+
+def soloAll (cfg : Cfg) (s : Shared) (ps : List PState) : List (Option (List Out)) :=
+  ps.map fun p => soloResult? (machine cfg) 64 s (.running p)
+
+def runAll (cfg : Cfg) (s : Shared) (ps : List PState) (sched : List Nat) : List (Option (List Out)) :=
+  results (run (machine cfg) ⟨s, ps.map .running⟩ sched)
+
+/-- a frozen dict with two pairs (hashes 5 and 9), hashed by two threads -/
+def hashBase : Base := { pairs := [[5, 9]] }
+def hashThreads : List PState := [{ ctxId := 0, prog := [.hash 0] }, { ctxId := 1, prog := [.hash 0] }]
+
+/-- **partial publication interferes** (the pre-fix `FrozenDict.__hash__`, F11): thread 0 stores the
+    partial hash `0` into the shared field, thread 1 takes it for the completed hash.  Alone both
+    return `5 ^ 9 = 12`. -/
+theorem partial_publication_interferes :
+    runAll { hashMode := .accumulateShared } (hashBase, []) hashThreads [0, 1, 1, 0, 0, 0] =
+      [some [.val 12], some [.val 0]] ∧
+    soloAll { hashMode := .accumulateShared } (hashBase, []) hashThreads =
+      [some [.val 12], some [.val 12]] := by decide
+
+/-- the same schedule on the fixed code (publish once, complete) -/
+example : runAll current (hashBase, []) hashThreads [0, 1, 1, 0, 0, 0, 1, 1] =
+    [some [.val 12], some [.val 12]] := by decide
+
+/-- lost update: with the accumulator in the shared field even the dict's final cached hash is wrong -/
+example : (run (machine { hashMode := .accumulateShared }) ⟨(hashBase, []), hashThreads.map .running⟩
+      [0, 0, 0, 0]).shared.2.head? = some (.hash 0, 12) := by decide
+
+def callBase : Base := { funcs := [(1, 0)], scratch := [none] }
+def callThreads : List PState :=
+  [{ ctxId := 0, prog := [.call 0 10] }, { ctxId := 1, prog := [.call 0 20] }]
+
+/-- **parked state interferes**: if the dispatch parks its argument on the shared definition
+    (expression node, `FunctionDefinition`, module variable ...) between the dispatch and the
+    payload, thread 0 returns thread 1's value.  With the state in locals (the real code) the same
+    schedule returns each thread its own. -/
+theorem parked_state_interferes :
+    runAll { park := .onDefinition } (callBase, []) callThreads [0, 1, 0, 1, 0, 1] =
+      [some [.val 20], some [.val 20]] ∧
+    soloAll { park := .onDefinition } (callBase, []) callThreads = [some [.val 10], some [.val 20]] ∧
+    runAll current (callBase, []) callThreads [0, 1, 0, 1, 0, 1] = [some [.val 10], some [.val 20]] := by
+  decide
+
+/-- an OrderingIterable stored in the shared context (`$o`), both threads call `$o.thenBy...` -/
+def sharedOrderBase : Base :=
+  { heap := [.ordering [(2, 1), (1, 2), (1, 1)] [(.fst, true)] none none] }
+def sharedOrderThreads : List PState :=
+  [{ ctxId := 0, prog := [.thenBy (.shared 0) .snd true, .iterate (.shared 0)] },
+   { ctxId := 1, prog := [.thenBy (.shared 0) .snd false, .iterate (.shared 0)] }]
+
+/-- a memorized iterator stored in the shared context, each thread has its own
+    RememberingIterator instance over it -/
+def sharedMemoBase : Base := { heap := [.memo [1, 2, 3] 0 [] [0, 0]] }
+def sharedMemoThreads : List PState :=
+  [{ ctxId := 0, prog := [.memoNext (.shared 0) 0, .memoNext (.shared 0) 0] },
+   { ctxId := 1, prog := [.memoNext (.shared 0) 1, .memoNext (.shared 0) 1] }]
+
+/-- **the condition of `lazy_objects_private` is necessary**: a lazy object that IS reachable through
+    the shared context is mutated by the evaluations that use it - thread 1 gets rows ordered by
+    thread 0's key, resp. the second element of the memorized sequence as its first -/
+theorem shared_lazy_object_interferes :
+    (runAll current (sharedOrderBase, []) sharedOrderThreads [0, 1, 0, 1, 0, 1] =
+      [some [.rows [(1, 1), (1, 2), (2, 1)]], some [.rows [(1, 1), (1, 2), (2, 1)]]] ∧
+     soloAll current (sharedOrderBase, []) sharedOrderThreads =
+      [some [.rows [(1, 1), (1, 2), (2, 1)]], some [.rows [(1, 2), (1, 1), (2, 1)]]]) ∧
+    (runAll current (sharedMemoBase, []) sharedMemoThreads [0, 1, 0, 1, 0, 1, 0, 1, 0, 1] =
+      [some [.val 1, .val 2], some [.val 2, .val 2]] ∧
+     soloAll current (sharedMemoBase, []) sharedMemoThreads =
+      [some [.val 1, .val 2], some [.val 1, .val 2]]) := by decide
+
+/-! ### non-vacuity of `objs_isolated` / `lazy_objects_private` -/
+
+def demoBase : Base := { pairs := [[5, 9], []], funcs := [(2, 1)] }
+def demoThreads : List PState :=
+  [{ ctxId := 0, prog := [.hash 0, .evalCached 7, .orderBy [(2, 1), (1, 2)] .fst true, .iterate (.own 0)] },
+   { ctxId := 1, prog := [.evalCached 7, .hash 0, .call 0 5, .memorize [4, 5], .memoNext (.own 0) 0] },
+   { ctxId := 2, prog := [.aggNew .sum true, .aggCall (.own 0) 1 [2, 3], .hash 1] }]
+
+example : ∀ p ∈ demoThreads, PInv demoBase p := by
+  intro p hp
+  simp only [demoThreads, List.mem_cons, List.not_mem_nil, or_false] at hp
+  rcases hp with h | h | h <;> subst h <;> exact ⟨by decide, trivial⟩
+
+example : runAll current (demoBase, []) demoThreads
+      (List.replicate 14 [0, 1, 2]).flatten =
+    demoThreads.map (fun p => some (den demoBase p)) ∧
+    demoThreads.map (den demoBase) =
+      [[.val 12, .evald 7 1, .made 0, .rows [(1, 2), (2, 1)]],
+       [.evald 7 1, .val 12, .val 11, .made 0, .val 4],
+       [.made 0, .group 1 (.scalar 5), .val 0]] := by decide
+
 end Yaql.Props.C18
